@@ -859,6 +859,33 @@ func runForeignChain(c *core.Ctx, n *chainkit.Node, h *honest) {
 			continue
 		}
 		c.Count("foreign_chain_forms", 1)
+		// the malleable twin (r, N-s, v^1) of the same form: whatever this chain thinks of the form itself,
+		// the high-s encoding of it must never be accepted for the signer
+		{
+			secpN, _ := new(big.Int).SetString("fffffffffffffffffffffffffffffffebaaedce6af48a03bbfd25e8cd0364141", 16)
+			t2 := root.clone()
+			t2.at(sp[0]).str = va.V(int64(sig[64] ^ 1)).Bytes()
+			t2.at(sp[1]).str = new(big.Int).SetBytes(sig[:32]).Bytes()
+			t2.at(sp[2]).str = new(big.Int).Sub(secpN, new(big.Int).SetBytes(sig[32:64])).Bytes()
+			if tx2, err := h.Decode(t2.encode()); err == nil {
+				var from2 common.Address
+				var f2, b2 error
+				func() {
+					defer func() {
+						if p := recover(); p != nil {
+							f2 = fmt.Errorf("panic: %v", p)
+						}
+					}()
+					from2, f2 = tx2.From()
+					b2 = n.App.CheckTx(tx2, true)
+				}()
+				c.Count("foreign_chain_high_s_twins", 1)
+				if f2 == nil && from2 == h.Sender && b2 == nil {
+					viol(c, "chain-param/"+va.class()+"/high-s-twin", fmt.Sprintf("%s: the high-s twin (r, N-s, v^1) of a signature made with hash suffix '%s' and %s is accepted by CheckBasic and charges the signer %x", h.Kind, va.Suffix, va.VForm, h.Sender),
+						map[string]string{"kind": h.Kind, "honest": h.Desc, "wire": hexShort(t2.encode())})
+				}
+			}
+		}
 		if ferr == nil && from == h.Sender && berr == nil {
 			viol(c, "chain-param/"+va.class(), fmt.Sprintf("%s: a signature the key holder %x made over these fields with hash suffix '%s' and %s is accepted by CheckBasic on this chain (parameter %s) and charges the signer", h.Kind, h.Sender, va.Suffix, va.VForm, types.SignParam),
 				map[string]string{"kind": h.Kind, "honest": h.Desc, "wire": hexShort(wire), "v": new(big.Int).SetBytes(t.at(sp[0]).str).String()})
